@@ -27,6 +27,7 @@ func genC08(t *rapid.T, thorough bool) AlignCase {
 		// Global: any sign of gap and gap-open scores.
 		c.M = genMatSpec(t, matOpts{openLo: -6, openHi: 3, gapLo: -6, gapHi: 3})
 	}
+	c.Mutate = genMatMutation(t, c.M)
 	letters := c.M.letters()
 	c.A = genSeqOver(t, letters, maxLen, "a")
 	if rapid.Bool().Draw(t, "related") {
@@ -99,6 +100,16 @@ func checkC08(c AlignCase, o *Obs) error {
 	}
 	gaps, _, _ := gapStats(res.steps)
 	o.NT = gaps > 0 || len(c.A) != len(c.B)
+	if applyMutation(c, m, rm) {
+		o.Class("matrix changed in place between calls")
+		res2, err := runAlign(c, m)
+		if err != nil {
+			return fmt.Errorf("after changing a score of the same matrix in place (%+v): %v", *c.Mutate, err)
+		}
+		if err := checkValidity(c, rm, res2, o); err != nil {
+			return fmt.Errorf("after changing a score of the same matrix in place (%+v): %v", *c.Mutate, err)
+		}
+	}
 	return nil
 }
 
@@ -161,6 +172,9 @@ func keyAlign(c AlignCase) []byte {
 	k := []byte(matDesc(c.M))
 	if c.Local {
 		k = append(k, 'L')
+	}
+	if c.Mutate != nil {
+		k = append(k, fmt.Sprintf("~%s%d,%d,%d", c.Mutate.Which, c.Mutate.I, c.Mutate.J, c.Mutate.Delta)...)
 	}
 	k = append(k, 0)
 	k = append(k, c.A...)
